@@ -1252,6 +1252,12 @@ def run(ctx):
 from ..selftest import Seed, unparse_seed  # noqa: E402
 
 SEEDS = [
+    Seed("Element.parent hides a parentless wrapper element", "fault", "src/odfdo/element.py",
+         "        if parent is None:\n            # Already at root\n            return None\n        return Element.from_tag(parent)",
+         "        if parent is None:\n            # Already at root\n            return None\n        if parent.getparent() is None and len(parent) == 1:\n            return None\n        return Element.from_tag(parent)", "R12t"),
+    Seed("Element.parent tests for a parent first", "neutral", "src/odfdo/element.py",
+         "        if parent is None:\n            # Already at root\n            return None\n        return Element.from_tag(parent)",
+         "        if parent is not None:\n            return Element.from_tag(parent)\n        else:\n            return None"),
     Seed("from_tag skips the registry when called on a specialised class", "fault", "src/odfdo/element.py",
          "        klass = _class_registry.get(elem.tag, cls)\n        return klass(tag_or_elem=elem)", "        if cls._tag and not isinstance(tag_or_elem, str):\n            return cls(tag_or_elem=elem)\n        klass = _class_registry.get(elem.tag, cls)\n        return klass(tag_or_elem=elem)", "R12s"),
     Seed("Frame.text_frame feeds presentation_style from presentation_class", "fault", "src/odfdo/frame.py",
